@@ -119,9 +119,12 @@ WHENS = {"S": 1, "M": 60, "H": 3600, "D": 86400, "midnight": 86400,
 FIELDS = {"name": "s", "levelno": "i", "levelname": "s", "pathname": "s",
           "filename": "s", "module": "s", "lineno": "i", "created": "f",
           "asctime": "s", "msecs": "f", "relativeCreated": "f",
-          "thread": "i", "message": "s", "process": "i", "funcName": "s"}
+          "thread": "i", "message": "s", "process": "i", "funcName": "s",
+          # the name of the asyncio task that made the record: None for a
+          # record made outside a task, which is what most records are
+          "taskName": "n"}
 # conversion -> types it works for, classic (%) style
-CLASSIC_CONV = {"s": "sif", "r": "sif", "d": "if", "f": "if", "x": "i",
+CLASSIC_CONV = {"s": "sifn", "r": "sifn", "d": "if", "f": "if", "x": "i",
                 "e": "if", "c": "i", "o": "i", "X": "i", "i": "if", "g": "if"}
 # integer-only presentation types of the format style, by fvariant
 FORMAT_INT_ONLY = {3: "{%s:d}", 5: "{%s:x}", 6: "{%s:c}", 7: "{%s:03d}",
@@ -222,7 +225,8 @@ def tok_valid(tok, style, arbitrary):
         if v in (0, 1):
             ok = True
         elif v == 2:
-            ok = True
+            # (None has no format mini-language)
+            ok = typ != "n"
         elif v in FORMAT_INT_ONLY:
             ok = typ == "i"
             if ok and _char_of_big_int(n, v == 6):
@@ -395,10 +399,6 @@ def model_handler(h):
             spec = "unspec"
         elif iv and not when:
             spec = "unspec"
-        if (ms < 0 or of < 0 or iv < 0) and spec == "accept":
-            # a negative number for a FILE: the statement says nothing (on a
-            # standard stream it is a rotation option like any other)
-            spec = "unspec"
         out["kind"] = "timed" if when else ("size" if ms else "plain")
     if path not in ("STDOUT", "STDERR"):
         # a rotation interval the handler class has no meaning for, an
@@ -413,6 +413,11 @@ def model_handler(h):
                 "".encode(enc)        # known, and an encoding of text
             except LookupError:
                 spec = "reject"
+    if ms < 0 or of < 0 or iv < 0:
+        # a negative size, count or interval is nothing a handler can work
+        # with (a negative interval sends the timed handler's rollover into
+        # an endless loop): an accepted configuration cannot contain it
+        spec = "reject"
     for v in (spec, fv):
         if v == "reject":
             out["verdict"] = "reject"
@@ -1017,7 +1022,9 @@ def generate(rng, tier, index):
             # process identifiers (logging.logThreads / logProcesses, the
             # documented optimisation): records carry None there
             "log_ids_off": ids_off,
-            "pre_use": rng.random() < 0.3}
+            "pre_use": rng.random() < 0.3,
+            # the configuration is loaded from inside an asyncio task
+            "in_task": rng.random() < 0.1}
 
 
 # ---------------------------------------------------------------------------
@@ -1302,7 +1309,19 @@ def _execute(plan, out, scratch, w, clock, recs):
                                                 io.StringIO(text))
         box[0] = cfg
         return {"ok": True}
-    lo = ops.guarded(do_load)
+    if plan.get("in_task"):
+        # environment: the application reads its configuration from inside
+        # an asyncio task (records made there carry the task's name; the
+        # records the handlers will see later mostly do not)
+        import asyncio
+
+        async def _main():
+            asyncio.current_task().set_name("zcsim-config-task")
+            return do_load()
+        lo = ops.guarded(lambda: asyncio.run(_main()))
+        probe("configuration-loaded-inside-an-asyncio-task")
+    else:
+        lo = ops.guarded(do_load)
     w.end_op("ok" if lo["ok"] else lo["cls"])
     out["evaluations"] += 1
     out["log"].append("config:\n" + text.replace(scratch, "$SCRATCH"))
